@@ -18,6 +18,9 @@ use serde::{Deserialize, Serialize};
 pub struct Workload {
     pub history: History,
     pub label: String,
+    /// start from a copy of this golden file (written by the pinned release) instead of a new file
+    #[serde(default)]
+    pub base: Option<String>,
 }
 
 #[derive(Clone, Debug)]
@@ -60,7 +63,8 @@ pub fn gen_workloads(ctx: &Ctx, rng: &mut Rng) -> Vec<Workload> {
     let mut v = Vec::new();
     for i in 0..n {
         let profile = *rng.pick(&[4u8, 1, 3, 0, 4]);
-        let ps = 1024;
+        // a quarter of the workloads at page sizes that are not a multiple of the 512-byte sector
+        let ps: u64 = if (ctx.shard + i) % 4 == 3 { [5000u64, 1032, 3000][((ctx.shard + i) / 4 % 3) as usize] } else { 1024 };
         let mut g = GenCfg::default_for(ps, profile);
         g.num_pages = 256;
         g.n_txs = (4, 9);
@@ -80,7 +84,7 @@ pub fn gen_workloads(ctx: &Ctx, rng: &mut Rng) -> Vec<Workload> {
                 h.txs.insert(at, TxScript { ops: vec![Op::TxBuckets], end: End::Commit, reopen: false });
             }
         }
-        let mut label = format!("reuse workload profile={} ops/tx={} (+empty commits)", crate::gen::profile_name(profile), if i % 3 == 0 { "20-60" } else { "2-12" });
+        let mut label = format!("reuse workload profile={} page size {} ops/tx={} (+empty commits)", crate::gen::profile_name(profile), ps, if i % 3 == 0 { "20-60" } else { "2-12" });
         if i % 5 == 4 {
             // a growth workload: start from the minimum file, one big value forces an extension
             h.num_pages = 4;
@@ -94,7 +98,7 @@ pub fn gen_workloads(ctx: &Ctx, rng: &mut Rng) -> Vec<Workload> {
             }
             label.push_str(" + growth");
         }
-        v.push(Workload { history: h, label });
+        v.push(Workload { history: h, label, base: None });
     }
     // ---- directed workloads (seed independent), spread over the shards
     let directed = directed_workloads(ctx.thorough());
@@ -128,7 +132,7 @@ pub fn directed_workloads(thorough: bool) -> Vec<Workload> {
         }
         txs.push(tx(ops));
         txs.push(tx(vec![Op::TxGet { k: K::lit(b"first"), how: How::Slice }, Op::Delete { h: 0, k: K::lit(b"k000") }, put(0, "z".into(), 999, len)]));
-        v.push(Workload { history: History { pagesize: ps, num_pages: 4, strict: false, populate: false, txs, origin: "directed".into() }, label: format!("minimum-size file, page size {}, first commits of {} x {} B", ps, n, len) });
+        v.push(Workload { history: History { pagesize: ps, num_pages: 4, strict: false, populate: false, txs, origin: "directed".into() }, label: format!("minimum-size file, page size {}, first commits of {} x {} B", ps, n, len), base: None });
     }
     // (b) free lists of several pages, rewritten by small commits and by commits that shrink them
     for index in if thorough { vec![0usize, 1, 3] } else { vec![0usize] } {
@@ -141,7 +145,7 @@ pub fn directed_workloads(thorough: bool) -> Vec<Workload> {
             h.txs.insert(2, extra.clone());
             h.txs.insert(2, tx(vec![Op::TxGet { k: K::lit(b"keep"), how: How::Slice }, put(0, "extra2".into(), 778, 500), Op::Delete { h: 0, k: K { pre: b"big00001".to_vec(), fill: 6, post: vec![] } }]));
             h.num_pages = 64;
-            v.push(Workload { history: h, label: format!("multi-page free list rewritten by small commits (variant {})", index) });
+            v.push(Workload { history: h, label: format!("multi-page free list rewritten by small commits (variant {})", index), base: None });
         }
     }
     // (c) repeated growth: 64 KiB pages, each commit adds about 2.6 MiB, some delete and re-add
@@ -163,7 +167,7 @@ pub fn directed_workloads(thorough: bool) -> Vec<Workload> {
             txs.push(tx(ops));
             txs.push(tx(vec![Op::TxGet { k: K::lit(b"g"), how: How::Slice }, put(0, "seed".into(), 50 + r as u64, 100 + r)]));
         }
-        v.push(Workload { history: History { pagesize: ps, num_pages: 4, strict: false, populate: false, txs, origin: "directed".into() }, label: "repeated file extension at page size 65536 (2.6 MiB per commit)".into() });
+        v.push(Workload { history: History { pagesize: ps, num_pages: 4, strict: false, populate: false, txs, origin: "directed".into() }, label: "repeated file extension at page size 65536 (2.6 MiB per commit)".into(), base: None });
     }
     // (d) same at 16 KiB pages with many small values (many pages per commit, growth every few commits)
     {
@@ -177,7 +181,16 @@ pub fn directed_workloads(thorough: bool) -> Vec<Workload> {
             }
             txs.push(tx(ops));
         }
-        v.push(Workload { history: History { pagesize: ps, num_pages: 4, strict: false, populate: false, txs, origin: "directed".into() }, label: "repeated file extension at page size 16384 (3 MiB per commit in 60 values)".into() });
+        v.push(Workload { history: History { pagesize: ps, num_pages: 4, strict: false, populate: false, txs, origin: "directed".into() }, label: "repeated file extension at page size 16384 (3 MiB per commit in 60 values)".into(), base: None });
+    }
+    // (e) further commits on files written by the PINNED release (and their legacy-header rewrites): the
+    // first commit by the current code meets a header pair it did not write itself
+    for (name, ps) in [("golden-1024.db", 1024u64), ("legacy-1024.db", 1024), ("golden-4096.db", 4096), ("legacy-5000.db", 5000)] {
+        if !thorough && ps == 4096 {
+            continue;
+        }
+        let txs = crate::c15::follow_ups(if thorough { 10 } else { 5 }, ps);
+        v.push(Workload { history: History { pagesize: ps, num_pages: 32, strict: false, populate: false, txs, origin: "directed".into() }, label: format!("further commits on {} (written by the pinned release)", name), base: Some(name.to_string()) });
     }
     v
 }
@@ -209,6 +222,7 @@ pub struct St {
     pub growth_commits: u64,
     pub multi_page_freelist_commits: u64,
     pub directed: u64,
+    pub golden_based: u64,
     pub distinct: std::collections::BTreeSet<u64>,
     pub shapes: std::collections::BTreeSet<String>,
 }
@@ -255,7 +269,9 @@ fn probe(
     }
     let expected = if which == "new" { new } else { prev };
     let r = util::catch(|| -> Result<(), (String, String)> {
-        let db = exec::open_db(path, h).map_err(|e| ("crash-image:reopen-fails".to_string(), format!("open: {}", e)))?;
+        // (the initial page count has no effect on an existing file: every other image is reopened with a different one)
+        let variant = (img.len() as u64 / h.pagesize + img.get(100).copied().unwrap_or(0) as u64) % 4;
+        let db = exec::reopen_db(path, h, if variant < 2 { 0 } else { variant }).map_err(|e| ("crash-image:reopen-fails".to_string(), format!("open: {}", e)))?;
         {
             let tx = db.tx(false).map_err(|e| ("crash-image:reopen-fails".to_string(), format!("tx: {}", e)))?;
             if let Some(d) = exec::verify_tx_against(&tx, expected, false) {
@@ -340,17 +356,18 @@ fn analyse(
     path: &std::path::Path,
     st: &mut St,
     rng: &mut Rng,
+    base_img: &[u8],
 ) {
     let h = &wl.history;
     let ps = h.pagesize as usize;
     let thorough = ctx.thorough();
-    let mut cache: Vec<u8> = Vec::new(); // all writes applied
-    let mut durable: Vec<u8> = Vec::new(); // as of the last completed sync
+    let mut cache: Vec<u8> = base_img.to_vec(); // all writes applied
+    let mut durable: Vec<u8> = base_img.to_vec(); // as of the last completed sync
     let mut pending: Vec<W> = Vec::new();
     let mut cur_commit: Option<usize> = None;
     let mut commit_writes: Vec<W> = Vec::new();
     let mut cache_at_commit_start: Vec<u8> = Vec::new();
-    let mut len_now: u64 = 0;
+    let mut len_now: u64 = base_img.len() as u64;
     let mut acked: usize = 0; // index into states of the last acknowledged state
     let mut probe_n = 0u64;
     let cur = std::env::var("VH_CURRENT").ok();
@@ -606,13 +623,34 @@ pub fn run(ctx: &Ctx) -> Shard {
         let mut run = Run::new(&cfg, h.pagesize);
         let mut states: Vec<MBucket> = vec![MBucket::default()];
         let mut committed = MBucket::default();
+        let mut base_img: Vec<u8> = Vec::new();
+        if let Some(name) = &wl.base {
+            let dir = std::path::PathBuf::from(ctx.get("golden").unwrap_or("/verif/out/golden"));
+            let mname = format!("golden-{}.manifest.json", h.pagesize);
+            let doc: Option<serde_json::Value> = std::fs::read(dir.join(&mname)).ok().and_then(|b| serde_json::from_slice(&b).ok());
+            match (std::fs::read(dir.join(name)), doc) {
+                (Ok(bytes), Some(doc)) => {
+                    committed = crate::c15::manifest_bucket(&doc["contents"]);
+                    states = vec![committed.clone()];
+                    vio.set_log(None); // the copy itself is not part of the recorded execution
+                    std::fs::write(&path, &bytes).expect("copy golden file");
+                    vio.set_log(Some(&log));
+                    base_img = bytes;
+                    st.golden_based += 1;
+                }
+                _ => {
+                    shard.inconclusive(format!("[{}] golden file or manifest missing", wl.label));
+                    continue;
+                }
+            }
+        }
         let rec = util::catch(|| -> Result<(), String> {
             let mut db = exec::open_db(&path, h).map_err(|e| e.to_string())?;
             for (k, t) in h.txs.iter().enumerate() {
                 vio.mark(&format!("B {}", k));
                 exec::exec_tx(&mut run, &db, &path, t, k, &mut committed);
                 if run.out.aborted {
-                    return Err(format!("transaction {} disagreed with the model (C01 territory)", k));
+                    return Err(crate::report::workload_failure(run.out.violations.first(), &format!("transaction {} was cut short", k)));
                 }
                 let committed_now = t.end == End::Commit && !t.ops.iter().any(|o| matches!(o, Op::Misuse { .. }));
                 vio.mark(&format!("E {} {}", k, if committed_now { "ok" } else { "rb" }));
@@ -630,11 +668,12 @@ pub fn run(ctx: &Ctx) -> Shard {
         match rec {
             Ok(Ok(())) => {}
             Ok(Err(e)) => {
-                shard.inconclusive(format!("[{}] {}", wl.label, e));
+                shard.inconclusive_or_workload(ctx, &format!("[{}]", wl.label), &e, &serde_json::json!({"kind": "c02-recording", "workload": wl}));
                 continue;
             }
             Err(p) => {
-                shard.inconclusive(format!("[{}] recording panicked: {}", wl.label, p.msg));
+                let sig = format!("workload:{}", util::panic_signature(&p));
+                shard.violation(ctx, &sig, &format!("[{}] the recorded (fault-free) execution panicked at {}:{}: {}", wl.label, p.file, p.line, p.msg), &serde_json::json!({"kind": "c02-recording", "workload": wl}));
                 continue;
             }
         }
@@ -647,7 +686,7 @@ pub fn run(ctx: &Ctx) -> Shard {
         };
         let probe_path = scratch.fresh("img");
         let before = st.images;
-        analyse(ctx, &mut shard, wl, &evs, &states, &probe_path, &mut st, &mut rng);
+        analyse(ctx, &mut shard, wl, &evs, &states, &probe_path, &mut st, &mut rng, &base_img);
         let _ = std::fs::remove_file(&probe_path);
         let _ = std::fs::remove_file(&log);
         if shard.samples.len() < 2 {
@@ -674,6 +713,7 @@ pub fn run(ctx: &Ctx) -> Shard {
     shard.count("max_pending_writes_at_a_sync", 0);
     shard.count("max_pending", st.max_pending);
     shard.count("directed_workloads", st.directed);
+    shard.count("workloads_on_files_written_by_the_pinned_release", st.golden_based);
     shard.count("commits_that_extended_the_file", st.growth_commits);
     shard.count("commits_with_a_multi_page_free_list", st.multi_page_freelist_commits);
     for s in &st.shapes {
